@@ -242,6 +242,7 @@ func vfC15(c *hx.Ctx) {
 		}
 	}
 	vfC15Backlog(c)
+	vfC15EventUnits(c)
 }
 
 // vfC15Backlog: more new peers than the accept backlog holds (white-box backlog of 1 or 2), late acceptor, then everything
